@@ -135,7 +135,7 @@ def run(ctx):
     # ------------------------------------------------------------ replay: every history up to the bound + deep behaviours
     blocks = _closed_histories(res['gen'].dump_path)
     total_hist = len(blocks)
-    budget = 500 if quick else 12000
+    budget = 1500 if quick else 12000
     chosen_blocks = vlib.sample_list(ctx.rng, blocks, budget)
     cases = [_case_of_block(b) for b in chosen_blocks]
     ctx.exhaustive = (len(cases) == total_hist)
